@@ -151,14 +151,34 @@ func Run(tier string, seed int64, outDir string) *common.Meta {
 				continue
 			}
 			outs := map[string][]diag{}
-			for _, exe := range []string{"go-critic", "gocritic", "go-critic-analysis", "gocritic-analysis"} {
-				var args []string
+			// the four binaries of one comparison run side by side
+			type res struct {
+				out  string
+				code int
+				err  error
+			}
+			exes := []string{"go-critic", "gocritic", "go-critic-analysis", "gocritic-analysis"}
+			argsOf := func(exe string) []string {
 				if strings.HasSuffix(exe, "-analysis") {
-					args = append(append([]string(nil), c.an...), pkgs...)
-				} else {
-					args = append(append([]string{"check", "-shorterErrLocation=false"}, c.cli...), pkgs...)
+					return append(append([]string(nil), c.an...), pkgs...)
 				}
-				out, code, err := common.Run(240*time.Second, base, env, filepath.Join(bin, exe), args...)
+				return append(append([]string{"check", "-shorterErrLocation=false"}, c.cli...), pkgs...)
+			}
+			results := make([]res, len(exes))
+			doneCh := make(chan struct{})
+			for ei, exe := range exes {
+				ei, exe := ei, exe
+				go func() {
+					results[ei].out, results[ei].code, results[ei].err = common.Run(240*time.Second, base, env, filepath.Join(bin, exe), argsOf(exe)...)
+					doneCh <- struct{}{}
+				}()
+			}
+			for range exes {
+				<-doneCh
+			}
+			for ei, exe := range exes {
+				args := argsOf(exe)
+				out, code, err := results[ei].out, results[ei].code, results[ei].err
 				runs++
 				if err != nil {
 					meta.Fail("C08/"+exe+"/run", err.Error(), args)
